@@ -15,8 +15,8 @@ use crate::link::{LinkErrorMode, LinkReadMode};
 use crate::master::task::MasterTask;
 use crate::master::{MasterChannel, MasterChannelConfig, MasterChannelType};
 use crate::outstation::task::OutstationTask;
-use crate::outstation::{ControlHandler, OutstationApplication, OutstationInformation};
 use crate::outstation::{ConnectionState, OutstationConfig, OutstationHandle};
+use crate::outstation::{ControlHandler, OutstationApplication, OutstationInformation};
 use crate::tcp::server_task::{NewSession, ServerTask};
 use crate::util::channel::Sender;
 use crate::util::phys::{PhysAddr, PhysLayer};
@@ -125,13 +125,11 @@ pub fn outstation(
     );
     let fut = Box::pin(async move {
         let res = server.run().await;
-        log.lock().unwrap().push(format!("server-task-exit:{res:?}"));
+        log.lock()
+            .unwrap()
+            .push(format!("server-task-exit:{res:?}"));
     });
-    (
-        fut,
-        handle,
-        OutstationConnector { sender, next_id: 0 },
-    )
+    (fut, handle, OutstationConnector { sender, next_id: 0 })
 }
 
 /// handle used by the engine to offer connections to the master's connect loop
